@@ -1085,7 +1085,7 @@ pub fn macro_cases(out: &mut Out) {
 }
 
 // dbase and geo-types producers live in their own files
-pub use crate_dbf::cases_dbf;
+pub use crate_dbf::{cases_dbf, oracle_c08, v_dbfhist, PairOp};
 pub use crate_geo::cases_geo;
 #[path = "dbf.rs"]
 mod crate_dbf;
